@@ -119,7 +119,10 @@ def handleTick : Handler := fun j a => do
   -- starts in this iteration (`some i.now` with no timer before) matches any instant of the iteration
   let nowEnd := ((j.getObjVal? "in").toOption.bind fun ij => (jInt ij "now_end").toOption).getD i.now
   let startedNow := i.failedAt.isNone && out.failedAt == some i.now
-  if !panicked && out.failedAt.getD 0 != oFailed && !(startedNow && i.now ≤ oFailed && oFailed ≤ nowEnd) then a := a.mismatch s!"mgrtick failedAt impl={oFailed} model={out.failedAt} on {j.compress}"
+  -- the procedure's own `updateActiveNodes` (at promotion) cleans the failure timer of every host that answers — the old
+  -- master's too (the timer key is shared with the "replica is failing" bookkeeping of `calcActiveNodes`)
+  let cleanedByProcedure := oFailed == 0 && oSteps.any (·.startsWith "switchPerformed")
+  if !panicked && out.failedAt.getD 0 != oFailed && !(startedNow && i.now ≤ oFailed && oFailed ≤ nowEnd) && !cleanedByProcedure then a := a.mismatch s!"mgrtick failedAt impl={oFailed} model={out.failedAt} on {j.compress}"
   let master := i.master.getD ""
   -- ---- C05 monitors ----
   if oSteps.contains "issueFailover" then
@@ -160,6 +163,10 @@ def handleTick : Handler := fun j a => do
     if sw.failoverType && (oSteps.any fun s => s.startsWith "switchStarted" || s.startsWith "switchPerformed" || s == "switchRejected") then
       a := a.violationSig "C09:failover-request-taken-up-under-light-maintenance" j.compress
   | _, _ => pure ()
+  -- C09: once the acknowledgement of full maintenance is visible nothing is changed any more — in this very iteration too
+  let afterAck := (jStrList obs "after_ack").toOption.getD []
+  if !afterAck.isEmpty then
+    a := a.violationSig "C09:change-after-the-acknowledgement-of-full-maintenance-was-written" s!"{afterAck} in {j.compress}"
   -- ---- C06 monitors: request lifecycle ----
   let after ← j.getObjVal? "after"
   let swPresentAfter := jBoolOr after "switch_present" false
@@ -197,6 +204,9 @@ def handleTick : Handler := fun j a => do
       if !(okTarget && writable) then a := a.violationSig "C06:succeeded-but-recorded-master-not-promoted-writable" j.compress
       if swPresentAfter then a := a.violationSig "C06:succeeded-but-request-still-pending" j.compress
   | _ => pure ()
+  -- a request another initiator filed after this iteration had read the (empty) request key is pending afterwards, untouched
+  if jBoolOr after "raced" false && !(swPresentAfter && jStrOr after "switch_initiated_by" "" == "op") then
+    a := a.violationSig "C06:request-of-another-initiator-overwritten-or-removed" j.compress
   -- ---- bookkeeping ----
   a := a.note (!oSteps.isEmpty)
   a := a.tag s!"{prop}:next:{oNext}"
